@@ -178,6 +178,8 @@ def _collect_loops(stmts):
         if new is not None:
             # a for loop leaves its target bound, a comprehension does not
             tnames = {x.id for x in ast.walk(b.target) if isinstance(x, ast.Name)}
+            if len(b.body) > 1:
+                tnames |= {t.targets[0].id for t in b.body[:-1] if isinstance(t, ast.Assign) and isinstance(t.targets[0], ast.Name)}
             if any(isinstance(x, ast.Name) and x.id in tnames for later in stmts[i + 2:] for x in ast.walk(later)):
                 new = None
         if new is not None:
@@ -192,9 +194,62 @@ def _collect_loops(stmts):
     return res
 
 
-def _collect_pair(a, b):
-    if not (isinstance(a, ast.Assign) and len(a.targets) == 1 and isinstance(a.targets[0], ast.Name) and isinstance(b, ast.For) and not b.orelse and len(b.body) == 1):
+_PURE_FUNCS = {"hex", "len", "int", "str", "bool", "repr", "range", "reversed", "min", "max", "abs", "ord", "chr", "bytes", "tuple", "dict", "list", "sorted",
+               "isinstance", "divmod", "oct", "bin", "float", "enumerate", "zip"}
+_PURE_METHODS = {"get", "items", "keys", "values", "format", "join", "strip", "split", "startswith", "endswith", "encode", "decode", "lower", "upper", "rstrip", "lstrip"}
+
+
+def _pure_expr(node):
+    for x in ast.walk(node):
+        if isinstance(x, ast.Call):
+            if isinstance(x.func, ast.Name) and x.func.id in _PURE_FUNCS:
+                continue
+            if isinstance(x.func, ast.Attribute) and x.func.attr in _PURE_METHODS:
+                continue
+            return False
+        if isinstance(x, (ast.Yield, ast.YieldFrom, ast.Await, ast.NamedExpr, ast.Lambda)):
+            return False
+    return True
+
+
+class _Subst(ast.NodeTransformer):
+    def __init__(self, m):
+        self.m = m
+
+    def visit_Name(self, node):
+        if isinstance(node.ctx, ast.Load) and node.id in self.m:
+            return self.m[node.id]
+        return node
+
+
+def _without_temporaries(loop):
+    """`for T in IT: t1 = e1; t2 = e2(t1); L.append(E(t1, t2))` with side-effect-free e1, e2, E: the temporaries are substituted away."""
+    import copy
+    *pre, last = loop.body
+    m = {}
+    for stmt_ in pre:
+        if not (isinstance(stmt_, ast.Assign) and len(stmt_.targets) == 1 and isinstance(stmt_.targets[0], ast.Name) and stmt_.targets[0].id not in m):
+            return None
+        if not _pure_expr(stmt_.value):
+            return None
+        m[stmt_.targets[0].id] = _Subst(m).visit(copy.deepcopy(stmt_.value))
+    tnames = {x.id for x in ast.walk(loop.target) if isinstance(x, ast.Name)}
+    if tnames & set(m):
         return None
+    # only the appending call itself may be impure-looking (`.append`): checked by the caller's shape test
+    new_last = _Subst(m).visit(copy.deepcopy(last))
+    new = ast.For(target=loop.target, iter=loop.iter, body=[new_last], orelse=[])
+    new._temporaries = set(m)
+    return ast.copy_location(new, loop)
+
+
+def _collect_pair(a, b):
+    if not (isinstance(a, ast.Assign) and len(a.targets) == 1 and isinstance(a.targets[0], ast.Name) and isinstance(b, ast.For) and not b.orelse and b.body):
+        return None
+    if len(b.body) > 1:
+        b = _without_temporaries(b)
+        if b is None:
+            return None
     name = a.targets[0].id
     v = a.value
     if isinstance(v, ast.List) and not v.elts:
@@ -212,6 +267,8 @@ def _collect_pair(a, b):
             and isinstance(inner.value.func.value, ast.Name) and inner.value.func.value.id == name and len(inner.value.args) == 1 and not inner.value.keywords):
         return None
     elt = inner.value.args[0]
+    if getattr(b, "_temporaries", None) and not all(_pure_expr(x) for x in [elt] + conds):
+        return None
     for part in [elt, b.iter, b.target] + conds:
         if any(isinstance(x, ast.Name) and x.id == name for x in ast.walk(part)):
             return None
